@@ -141,6 +141,8 @@ def run(ctx):
     # ---- bounded stand-in: Richardson on the real integrator ---------------------------------------
     ctx.guard(_richardson, ctx, py)
 
+    from props import helpers as _helpers
+    ctx.guard(_helpers.integrator_argument_forms, ctx, py, "C01")
     # frame of the modules under contract (no state kept between calls, arguments left alone): same analysis as C19
     from props import C19 as _C19
     ctx.guard(_C19.frame_obligations, ctx, py, "C01", {'strapdown', 'earth', '_numba_integrate'})
